@@ -1,0 +1,35 @@
+//go:build verif
+
+// Contracts for the socket application proxy (govc; comment-only, never compiled into a normal build).
+package app
+
+// A proxy call that fails is reported as an error and never as an empty success (C20): `call` returns nil only
+// after an RPC was issued on a connection and completed, within the timeout, with a nil error; every failed
+// attempt leaves a non-nil error behind, and after the last attempt that error is what is returned.
+//@ import "net/rpc"
+
+//@ func (p *SocketAppProxyClient) call(serviceMethod string, args interface{}, reply interface{}) error
+//@   requires p != nil && p.retries >= 1
+//@   ensures[no-silent-failure] ret0 == nil ==> __called("Go") && __lastret("Go", 0).(*rpc.Call).Error == nil
+//@   loop 1 invariant[failed-so-far] try >= 0 && (try == 0 ==> err == nil) && (try > 0 ==> err != nil)
+
+// The constructor fixes the number of attempts at three.
+//@ func NewSocketAppProxyClient(clientAddr string, timeout time.Duration, logger *logrus.Entry) *SocketAppProxyClient
+//@   modifies nothing
+//@   ensures[retries] ret0 != nil && __fresh(ret0) && ret0.retries == 3
+
+//@ func (p *SocketAppProxyClient) CommitBlock(block hashgraph.Block) (proxy.CommitResponse, error)
+//@   requires p != nil && p.retries >= 1
+//@   ensures[error-reported] (ret1 == nil) == (__lastret("call", 0) == nil)
+
+//@ func (p *SocketAppProxyClient) GetSnapshot(blockIndex int) ([]byte, error)
+//@   requires p != nil && p.retries >= 1
+//@   ensures[error-reported] (ret1 == nil) == (__lastret("call", 0) == nil)
+
+//@ func (p *SocketAppProxyClient) Restore(snapshot []byte) error
+//@   requires p != nil && p.retries >= 1
+//@   ensures[error-reported] (ret0 == nil) == (__lastret("call", 0) == nil)
+
+//@ func (p *SocketAppProxyClient) OnStateChanged(state state.State) error
+//@   requires p != nil && p.retries >= 1
+//@   ensures[error-reported] (ret0 == nil) == (__lastret("call", 0) == nil)
